@@ -40,7 +40,33 @@ def _mentions(test: ast.expr, names: set[str]) -> bool:
     return False
 
 
+_EXPANDER = None  # set by Context: expands call-free temporaries inside a guard test (provenance engine)
+
+
+def set_expander(fn) -> None:
+    global _EXPANDER
+    _EXPANDER = fn
+
+
 def guards_of(node: ast.AST) -> list[tuple[ast.expr, bool]]:
+    """Raw guards plus, where a test mentions call-free temporaries (`ok = a and b; if ok:`), the test with
+    those temporaries expanded (marked with `_orig`)."""
+    raw = _guards_of(node)
+    if _EXPANDER is None:
+        return raw
+    out = list(raw)
+    for test, pol in raw:
+        try:
+            t2 = _EXPANDER(test)
+        except Exception:  # noqa: BLE001 - expansion is best effort, the raw guard is always kept
+            t2 = None
+        if t2 is not None and ast.dump(t2) != ast.dump(test):
+            t2._orig = test  # type: ignore[attr-defined]
+            out.append((t2, pol))
+    return out
+
+
+def _guards_of(node: ast.AST) -> list[tuple[ast.expr, bool]]:
     out: list[tuple[ast.expr, bool]] = []
     child = node
     p = parent(node)
